@@ -385,7 +385,14 @@ func c39CheckBucket(rep *vh.Report, scheme *runtime.Scheme, namespace, name stri
 	for k := range outs {
 		keys = append(keys, k)
 	}
-	sort.Strings(keys)
+	// the two functions first (lower-case names sort after the rendered "CronJob/…", "StatefulSet/…" keys)
+	sort.Slice(keys, func(i, j int) bool {
+		fi, fj := !strings.Contains(keys[i], "/"), !strings.Contains(keys[j], "/")
+		if fi != fj {
+			return fi
+		}
+		return keys[i] < keys[j]
+	})
 	sig := ""
 	reported := map[string]bool{}
 	for _, k := range keys {
